@@ -335,7 +335,7 @@ def type_range(t, dt=None):
 
 
 class IState(object):
-    __slots__ = ('env', 'ptr', 'reads', 'events', 'facts')
+    __slots__ = ('env', 'ptr', 'reads', 'events', 'facts', 'visits')
 
     def __init__(self):
         self.env = {}      # key -> (lo, hi)
@@ -343,6 +343,7 @@ class IState(object):
         self.reads = []    # list of (root, offset, line, bounded?)
         self.events = []   # overflow events
         self.facts = {}    # key -> set of ('<', other key) relational facts established by branches
+        self.visits = {}   # loop head node id -> times this path passed it
 
     def copy(self):
         s = IState()
@@ -351,6 +352,7 @@ class IState(object):
         s.reads = list(self.reads)
         s.events = list(self.events)
         s.facts = dict((k, set(v)) for k, v in self.facts.items())
+        s.visits = dict(self.visits)
         return s
 
 
@@ -767,6 +769,13 @@ class IntervalInterp(object):
             node, st = work.pop()
             k = node.k
             if k in ('entry', 'join'):
+                if node.loop is not None and getattr(self, 'max_loop_visits', None):
+                    # a loop whose trip count the intervals cannot bound: follow it max_loop_visits times per path
+                    # (callers that set this only collect which callees are reachable, not values after the loop)
+                    st.visits[node.id] = st.visits.get(node.id, 0) + 1
+                    if st.visits[node.id] > self.max_loop_visits:
+                        self.loop_cuts = getattr(self, 'loop_cuts', 0) + 1
+                        continue
                 for m, lab in node.succ:
                     work.append((m, st))
             elif k == 'exit':
